@@ -12,7 +12,7 @@ WALL = {"quick": 220, "thorough": 2400}
 MIN_CASES = {"quick": 1500, "thorough": 15000}
 RULE = ("Hypothesis draws a square operator tree (Dense, Identity, Diagonal, ScalarMul, Sum, BlockDiag with multiplicities, "
         "Kronecker/KronSum with >=2 factors, products, generic matmat/no_dispatch operators, nested), an offset -n<k<n, a size "
-        "(1..12 for nested trees; {99,100,101,130,199,200,201,250} for shallow large ones, i.e. both sides of and not "
+        "(1..12 for nested trees; {99,100,101,130,199,200,201,250,320,400} for shallow large ones, i.e. both sides of and not "
         "divisible by the probing block 100) and alg in {omitted, Auto(), Exact(), Exact(bs)}; oracle = numpy.diag of the "
         "reference matrix (exact equality for integer payloads, which also pins the length) and trace = sum. If the generic "
         "probing rule is selected any exception or mismatch is a violation; a structural rule must return the reference "
@@ -23,7 +23,7 @@ ASSUMPTIONS = [
 ]
 AVOID = set()
 STRUCTURAL = {"Dense", "Identity", "Diagonal", "Sum", "BlockDiag", "ScalarMul", "Kronecker", "KronSum", "Triangular"}
-BIG = [99, 100, 101, 130, 199, 200, 201, 250]
+BIG = [99, 100, 101, 130, 199, 200, 201, 250, 320, 400]
 
 
 def configure(tier, opts):
